@@ -155,6 +155,7 @@ func (x *Exec) intercept(st *State, fn *ssa.Function, args []*Term) ([]Outcome, 
 		x.fresh0 = x.nextCell
 		return ret(c.Ctor(c.Unit))
 	case "End":
+		st.specPhase = true
 		st.funcTrace = append([]Event(nil), st.trace...)
 		return ret(c.Ctor(c.Unit))
 	case "NoCalls":
@@ -445,7 +446,15 @@ func (x *Exec) quantifier(st *State, f *Term, universal bool) (*Term, error) {
 	if body == nil {
 		return nil, fmt.Errorf("quantifier body outside the supported subset")
 	}
-	guard = append(guard, x.takeFacts(mark))
+	facts := x.takeFacts(mark)
+	if c.Reindex && !facts.IsTrue() {
+		// The facts collected while evaluating the body are assumptions in their own right (contracts of
+		// summarised callees under their proved preconditions, type invariants of values produced by unknown
+		// code, definitions of recursive specification functions): they hold for every value of the bound
+		// variables, whatever the polarity in which the quantified formula is used.
+		x.assumeFact(st, c.Forall(vars, c.Implies(c.And(guard...), facts)))
+	}
+	guard = append(guard, facts)
 	if os.Getenv("GOVC_DEBUG") != "" {
 		fmt.Fprintf(os.Stderr, "quantifier body: def=%s body=%s\n", c.Show(def), c.Show(body))
 	}
@@ -559,17 +568,45 @@ func (x *Exec) trusted(st *State, fn *ssa.Function, name string, args []*Term) (
 			return nil, false
 		}
 		w := a.Sort.Width
-		sum := c.IntLit(0)
-		for i := 0; i < w; i++ {
-			var bit *Term
-			if v, ok := a.BVVal(); ok {
-				bit = c.BoolLit(v>>uint(i)&1 == 1)
-			} else {
-				bit = c.mk(&Term{Op: "bvbit", Idx: i, Args: []*Term{a}, Sort: c.Bool})
+		if v, ok := a.BVVal(); ok {
+			n := 0
+			for ; v != 0; v &= v - 1 {
+				n++
 			}
-			sum = c.Arith("+", sum, c.Ite(bit, c.IntLit(1), c.IntLit(0)))
+			return ret(c.IntLit(int64(n)))
 		}
-		return ret(sum)
+		// SWAR population count in bit-vector arithmetic (identities such as popcount(b|bit) = popcount(b)+1 are then
+		// pure bit-vector facts, which bit-blasting decides); the at most 7-bit result is read off as an integer
+		rep := func(b uint64) *Term {
+			var v uint64
+			for i := 0; i < w; i += 8 {
+				v |= b << uint(i)
+			}
+			return c.BVLit(v, w)
+		}
+		sh := func(t *Term, k int) *Term { return c.Arith("bvlshr", t, c.BVLit(uint64(k), w)) }
+		xv := c.Arith("bvsub", a, c.Arith("bvand", sh(a, 1), rep(0x55)))
+		xv = c.Arith("bvadd", c.Arith("bvand", xv, rep(0x33)), c.Arith("bvand", sh(xv, 2), rep(0x33)))
+		xv = c.Arith("bvand", c.Arith("bvadd", xv, sh(xv, 4)), rep(0x0f))
+		for k := 8; k < w; k *= 2 {
+			xv = c.Arith("bvadd", xv, sh(xv, k))
+		}
+		return ret(x.toInt(c.Arith("bvand", xv, c.BVLit(0x7f, w))))
+	case name == "bytes.Equal":
+		// definition: same length and the same byte at every position (a nil and an empty slice are equal)
+		a, b := args[0], args[1]
+		es := c.BV(8)
+		la, lb := c.Sel(a, 2), c.Sel(b, 2)
+		i := c.BoundVar("i", c.Int)
+		same := c.Forall([]*Term{i}, c.Implies(c.And(c.Cmp("<=", c.IntLit(0), i), c.Cmp("<", i, la)), c.Eq(x.sliceAt(st, a, es, i), x.sliceAt(st, b, es, i))))
+		return ret(c.And(c.Eq(la, lb), same))
+	case name == "hash/fnv.New32" || name == "hash/fnv.New32a":
+		// trusted model of the FNV hash object: an accumulator that is some function of the byte
+		// sequences written so far (extensional in their contents); nothing else is known about it
+		x.noteTrusted(name + ": Sum32 is a deterministic function of the sequence of bytes written (contents only, not identity of the slices)")
+		acc := c.App("fnv_init_"+shortName(name), c.Int)
+		cell := x.newCell(st, acc, nil)
+		return ret(c.App("fnv_obj", c.Iface, cell))
 	case name == "runtime/debug.Stack":
 		x.noteTrusted("runtime/debug.Stack: returns some byte slice, no other effect")
 		v := c.Fresh("stack", c.Slice)
